@@ -9,7 +9,12 @@
                                    matrices are lists of rows; the result names "i" "j" are
                                    encoded by their ASCII codes 105 106
      (14 5 ty (x ..))              softmax   -> list
-     (14 6 ty p r)                 f1_score  -> value *)
+     (14 6 ty p r)                 f1_score  -> value
+     (14 7 ((m e) ..))             FLOAT ORACLE (not a model of f64 arithmetic): softmax over the f64
+                                   values m * 10^e (finite, large magnitudes included); the harness
+                                   reports (len-ok finite-and-nonneg sums-to-one-within-1e-9
+                                   order-preserved) as 0/1 flags; the expected answer is what the
+                                   C14 softmax theorems demand: (1 1 1 1) *)
 From Coq Require Import List ZArith NArith Bool.
 From EasyML Require Import Base.Sx Model.Num Model.Stats.
 Import ListNotations.
@@ -56,6 +61,11 @@ End Run.
 
 Definition run_c14 (args : list sx) : sx :=
   match args with
+  | [SZ 7%Z; xs] =>
+      match dlist (dpair dZ dZ) xs with
+      | Some _ => SL [SZ 1; SZ 1; SZ 1; SZ 1]
+      | None => bad_case
+      end
   | SZ op :: SZ ty :: rest => with_ty ty (fun R ops => c14_run ops op rest)
   | _ => bad_case
   end.
